@@ -320,6 +320,7 @@ type psWorld struct {
 	teardown bool
 	msgN     int
 	ops      []psOp
+	nodeOpen bool // the node has no membership checker: every proven identity may subscribe and publish
 }
 
 var psSpaces = []string{"sA", "sB"}
@@ -428,6 +429,8 @@ func (w *psWorld) newStream(owner, remotePeer string, acct *psAcct) *psStream {
 	ctx := peer.CtxWithPeerId(context.Background(), remotePeer)
 	if acct != nil {
 		ctx = peer.CtxWithIdentity(ctx, acct.ident)
+	} else if w.s.Flip("nil-identity-in-ctx", 0.5) {
+		ctx = peer.CtxWithIdentity(ctx, nil) // what the transport records for an unverified inbound connection
 	}
 	st.ctx = ctx
 	w.streams = append(w.streams, st)
@@ -464,7 +467,7 @@ func (w *psWorld) verdictSubscribe(st *psStream, sub *pubsubproto.Subscribe) (bo
 			return false, "invalid pattern"
 		}
 	}
-	if !w.isMember(sub.SpaceId, st.acct.id) {
+	if !w.nodeOpen && !w.isMember(sub.SpaceId, st.acct.id) {
 		return false, "not a member"
 	}
 	return true, ""
@@ -490,7 +493,7 @@ func (w *psWorld) verdictPublishAtNode(st *psStream, p *pubsubproto.Publish) (bo
 	switch {
 	case st.acct == nil || len(p.Identity) == 0 || !bytes.Equal(st.acct.ident, p.Identity):
 		return false, "identity not bound to the handshake"
-	case !w.isMember(p.SpaceId, st.acct.id):
+	case !w.nodeOpen && !w.isMember(p.SpaceId, st.acct.id):
 		return false, "not a member"
 	}
 	if o := psOwner(p.Topic); o != "" && o != st.acct.id {
@@ -1236,7 +1239,12 @@ func runC17(r *core.Run) {
 	}
 	cfg := pubsub.Config{MaxPayloadSize: psMaxPayload, PublishRps: 1e6, PublishBurst: 1 << 20, MaxTimestampSkew: psSkew, DialQueueWorkers: 1}
 	nodeAcct := w.newAcct("NODE")
-	w.node = pubsub.New(pubsub.Deps{Membership: psMembership{w}, Relay: psRelay{w}, Config: cfg})
+	nodeDeps := pubsub.Deps{Membership: psMembership{w}, Relay: psRelay{w}, Config: cfg}
+	if w.nodeOpen = s.Flip("open-node", 0.15); w.nodeOpen {
+		nodeDeps.Membership = nil
+	}
+	r.SetCfg("node_membership_checker", !w.nodeOpen)
+	w.node = pubsub.New(nodeDeps)
 	w.nodeApp = new(app.App)
 	w.nodeApp.Register(accounttest.NewWithAcc(nodeAcct.keys)).Register(w.node)
 	must(w.nodeApp.Start(context.Background()))
